@@ -9,7 +9,11 @@ from pyvc.contracts import (Any, Bool, ByteArray, Bytes, Callback, ConcList, Con
                             TupleOf, at, contract, forall, iff, implies, lemma, model)
 
 PROP = 'C17'
-ENVIRONMENT = []
+ENVIRONMENT = [
+    'ATT: the field-spec interpreter (HCI_Object.dict_from_bytes / parse_field) and the PDU constructors run in place on symbolic bytes; UUID.register (a scan of the global UUID registry) is a stub returning the UUID; short integer fields read with int.from_bytes are unconstrained integers of the field width',
+    'Device.on_gatt_pdu starts with the connection (the with_connection_from_handle decorator is outside); the GATT client and server behind it are recording stubs (server side: C10/C11; client notification handlers: C12)',
+    'Client.on_gatt_pdu: two request kinds pending (Read, Exchange MTU) against seven incoming PDU kinds; the name-based matching for the other request classes is the same code path',
+]
 CODEC_INLINE = ['bumble.hci:*', 'bumble.att:*', 'bumble.core:*', 'bumble.utils:*']
 
 # what a malformed ATT PDU can raise out of the parser: a fixed-size field cut short (struct.error / IndexError) or an
